@@ -5,6 +5,7 @@ import (
 	"go/ast"
 	"go/token"
 	"go/types"
+	"os"
 
 	"golang.org/x/tools/go/ssa"
 
@@ -191,7 +192,7 @@ func (fc *FuncContract) Spec() *sym.FnSpec {
 	return &sym.FnSpec{
 		Requires: func(fx *sym.FnExec, st *sym.State, args []sym.Value) {
 			// receivers and pointer params: contracts are about calls on non-nil receivers unless stated otherwise
-			env := &Env{Fx: fx, St: st, Old: st, Vars: fc.vars(fx, args, nil), Set: fc.Set, Skol: skol, Owner: fc.Key, Assume: true, Own: true, Fuel: fc.Fuel, Opaque: fc.Opaque}
+			env := &Env{Fx: fx, St: st, Old: st, Vars: fc.vars(fx, args, nil), Set: fc.Set, Skol: skol, Owner: fc.Key, Assume: true, Own: true, Fuel: fc.Fuel, Opaque: fc.Opaque, Recursive: fc.Recursive}
 			if fc.Fn.Signature.Recv() != nil {
 				if p, ok := args[0].(sym.PtrV); ok && !fc.Flags["nilrecv"] {
 					st.Assume(Not(p.Nil))
@@ -206,7 +207,28 @@ func (fc *FuncContract) Spec() *sym.FnSpec {
 			}
 		},
 		Post: func(fx *sym.FnExec, entry, exit *sym.State, args []sym.Value, ret sym.Value, ri int) {
-			env := &Env{Fx: fx, St: exit, Old: entry, Vars: fc.vars(fx, args, ret), Set: fc.Set, Skol: skol, Owner: fc.Key, Fuel: fc.Fuel, Opaque: fc.Opaque, Own: true}
+			env := &Env{Fx: fx, St: exit, Old: entry, Vars: fc.vars(fx, args, ret), Set: fc.Set, Skol: skol, Owner: fc.Key, Fuel: fc.Fuel, Opaque: fc.Opaque, Recursive: fc.Recursive, Own: true}
+			// named locals of the function at this return (usable in ensures, e.g. an internal keystream)
+			if rf := fx.RetFrame; rf != nil && rf.Fn == fc.Fn {
+				for _, b := range fc.Fn.Blocks {
+					for _, in := range b.Instrs {
+						dr, ok := in.(*ssa.DebugRef)
+						if !ok || dr.IsAddr {
+							continue
+						}
+						id, ok := dr.Expr.(*ast.Ident)
+						if !ok {
+							continue
+						}
+						if _, taken := env.Vars[id.Name]; taken {
+							continue
+						}
+						if v, ok := rf.Env[dr.X]; ok {
+							env.Vars[id.Name] = TV{V: v, T: dr.X.Type()}
+						}
+					}
+				}
+			}
 			for i, en := range fc.Ensures {
 				t, err := env.Bool(en)
 				if err != nil {
@@ -278,6 +300,9 @@ func (fc *FuncContract) Apply(fx *sym.FnExec, fr *sym.Frame, fn *ssa.Function, a
 		st.Assume(t)
 	}
 	if st.Dead {
+		if os.Getenv("VERIF_DEBUG") != "" {
+			fmt.Printf("state dead after requires of %s at %s\n", fc.Key, site)
+		}
 		return
 	}
 	// recursion: variant
@@ -389,7 +414,41 @@ func (fc *FuncContract) Apply(fx *sym.FnExec, fr *sym.Frame, fn *ssa.Function, a
 	default:
 		ret = sym.TupleV{V: rvals}
 	}
+	// storage reachable from the results that did not exist before the call was allocated by the callee
+	for o := range st.Heap {
+		if _, existed := pre.Heap[o]; !existed && o.Prov == sym.ProvParam {
+			o.Prov = sym.ProvFresh
+		}
+	}
 	env2 := &Env{Fx: fx, St: st, Old: pre, Vars: fc.vars(fx, args, ret), Set: fc.Set, Owner: fc.Key + "@" + site, Assume: true}
+	// locals of the callee mentioned in its ensures are existential ghosts for the caller
+	for _, b := range fn.Blocks {
+		for _, in := range b.Instrs {
+			dr, ok := in.(*ssa.DebugRef)
+			if !ok || dr.IsAddr {
+				continue
+			}
+			id, ok := dr.Expr.(*ast.Ident)
+			if !ok {
+				continue
+			}
+			if _, taken := env2.Vars[id.Name]; taken {
+				continue
+			}
+			used := false
+			for _, en := range fc.Ensures {
+				ast.Inspect(en, func(n ast.Node) bool {
+					if x, ok := n.(*ast.Ident); ok && x.Name == id.Name {
+						used = true
+					}
+					return true
+				})
+			}
+			if used {
+				env2.Vars[id.Name] = TV{V: fx.SymValue(st, dr.X.Type(), "ghost."+id.Name, 1), T: dr.X.Type()}
+			}
+		}
+	}
 	for i, en := range fc.Ensures {
 		if used[i] {
 			continue
@@ -401,6 +460,9 @@ func (fc *FuncContract) Apply(fx *sym.FnExec, fr *sym.Frame, fn *ssa.Function, a
 		st.Assume(t)
 	}
 	if st.Dead {
+		if os.Getenv("VERIF_DEBUG") != "" {
+			fmt.Printf("state dead after assuming ensures of %s at %s\n", fc.Key, site)
+		}
 		return
 	}
 	k(st, ret)
@@ -524,7 +586,7 @@ func (s *Set) LoopSpecs() func(fn *ssa.Function, ord int) *sym.LoopSpec {
 			if old == nil {
 				old = st
 			}
-			return &Env{Fx: fx, St: st, Old: old, Vars: vars, Set: s, Skol: skol, Owner: fmt.Sprintf("%s.loop%d", fc.Key, ord), Fuel: fc.Fuel, Opaque: fc.Opaque, Own: true}
+			return &Env{Fx: fx, St: st, Old: old, Vars: vars, Set: s, Skol: skol, Owner: fmt.Sprintf("%s.loop%d", fc.Key, ord), Fuel: fc.Fuel, Opaque: fc.Opaque, Recursive: fc.Recursive, Own: true}
 		}
 		ls := &sym.LoopSpec{Unroll: lc.Unroll, Bounded: lc.Bounded}
 		ls.Invariant = func(fx *sym.FnExec, fr *sym.Frame, st *sym.State, entry *sym.State, assume bool) []*sym.NamedTerm {
